@@ -77,6 +77,14 @@ func c18RunPieces(schemaText string, input []byte, sizes []int) hx.Result {
 	return hx.Run(schema, &hx.CutReader{Data: input, Cuts: cuts}, hx.Opts{MaxReads: 3000})
 }
 
+func c18Every(step, n int) []int {
+	var cuts []int
+	for p := step; p < n; p += step {
+		cuts = append(cuts, p)
+	}
+	return cuts
+}
+
 func c18Check(cs c18Case) (sig, detail string) {
 	var a, b hx.Result
 	switch cs.Family {
@@ -103,6 +111,19 @@ func c18Check(cs c18Case) (sig, detail string) {
 	default:
 		a = c18Run1(c18WithEncoding(cs.Schema, cs.Encoding), cs.Input)
 		b = c18Run1(c18WithEncoding(cs.Schema, "utf-8"), c18Decode(cs.Encoding, cs.Input))
+		if cs.Family != "all-byte-pairs" && cs.Family != "leading-byte-pair" && len(cs.Input) > 0 {
+			// the raw bytes again, the last piece arriving together with io.EOF (whole, and in 1024-byte pieces)
+			for _, cuts := range [][]int{nil, c18Every(1024, len(cs.Input))} {
+				a2 := hx.Run(c18Schemas[c18WithEncoding(cs.Schema, cs.Encoding)], &hx.CutReader{Data: cs.Input, Cuts: cuts, EOFWithLast: true}, hx.Opts{MaxReads: 3000})
+				if a2.PanicSite == "" && (a2.NewTransformErr != b.NewTransformErr || !hx.SameSteps(a2.Steps, b.Steps)) {
+					return "differs:" + cs.Item + ":" + cs.Encoding + ":last-bytes-arrive-with-eof", fmt.Sprintf("%s [%s] input %q, last piece delivered together with io.EOF (cuts %v)\n-- with encoding %s on the raw bytes (%s):\n%s-- reference run (pre-converted) (%s):\n%s",
+						cs.Item, cs.Family, cs.Input, cuts, cs.Encoding, a2.NewTransformErr, hx.Transcript(a2.Steps), b.NewTransformErr, hx.Transcript(b.Steps))
+				}
+				if cuts == nil && len(cs.Input) <= 1024 {
+					break
+				}
+			}
+		}
 	}
 	if a.PanicSite != "" {
 		return "panic:" + a.PanicSite, fmt.Sprintf("%s %s input %q", cs.Item, cs.Encoding, cs.Input)
@@ -189,6 +210,24 @@ func init() {
 							for _, b2 := range set {
 								in := strings.Replace(tpl, S, string([]byte{b1, b2}), 1)
 								if !try(c18Case{Item: it.Name, Schema: it.Schema, Encoding: enc, Input: []byte(in), Family: "byte-pair"}) {
+									return
+								}
+							}
+						}
+					}
+					// every pair of bytes as the first two bytes of the input (where byte order marks of other
+					// encodings would sit: FF FE, FE FF are the text "ÿþ", "þÿ" in a single-byte encoding)
+					if !c.Quick() || it.Name == "csv2/flat" || it.Name == "fixedlength2/flat" || it.Name == "xml/basic" {
+						for b1 := 0; b1 < 256; b1++ {
+							for b2 := 0; b2 < 256; b2++ {
+								if c.Quick() && b1 < 0x80 && b2 < 0x80 && (b1+b2)%7 != 0 {
+									continue // quick: ASCII-ASCII pairs are thinned out
+								}
+								in := strings.Replace(it.Slots[1], S, string([]byte{byte(b1), byte(b2)}), 1)
+								if !strings.HasPrefix(in, string([]byte{byte(b1), byte(b2)})) {
+									in = string([]byte{byte(b1), byte(b2)}) + strings.Replace(it.Slots[0], S, "v", 1)
+								}
+								if !try(c18Case{Item: it.Name, Schema: it.Schema, Encoding: enc, Input: []byte(in), Family: "leading-byte-pair"}) {
 									return
 								}
 							}
